@@ -58,6 +58,7 @@ type worldRT struct {
 	handlers map[string]rtHandler // keyed by configured server URL
 	log      []string             // configured URL of each request, in arrival order
 	onReq    func(url string)     // hook (barriers, cancellation)
+	onDone   func(url string)     // hook called when an exchange has completed
 	seq      *eventSeq
 	noSeq    map[string]bool // URLs whose exchanges are put on the time line by someone else (the logging fetcher)
 }
@@ -118,7 +119,14 @@ func (w *worldRT) RoundTrip(req *http.Request) (*http.Response, error) {
 		io.Copy(io.Discard, req.Body)
 		req.Body.Close()
 	}
-	return h(req)
+	resp, err := h(req)
+	w.mu.Lock()
+	done := w.onDone
+	w.mu.Unlock()
+	if done != nil {
+		done(u)
+	}
+	return resp, err
 }
 
 func (w *worldRT) requests() []string {
@@ -616,11 +624,12 @@ type fetchResult struct {
 }
 
 type worldFetcher struct {
-	mu    sync.Mutex
-	res   map[string]fetchResult
-	log   []string
-	onReq func(url string)
-	seq   *eventSeq
+	mu     sync.Mutex
+	res    map[string]fetchResult
+	log    []string
+	onReq  func(url string)
+	onDone func(url string)
+	seq    *eventSeq
 }
 
 func newWorldFetcher() *worldFetcher { return &worldFetcher{res: map[string]fetchResult{}} }
@@ -643,6 +652,12 @@ func (f *worldFetcher) Fetch(ctx context.Context, url string) (*crlpkg.Bundle, e
 	}
 	if r.panicV != nil {
 		panic(r.panicV)
+	}
+	f.mu.Lock()
+	done := f.onDone
+	f.mu.Unlock()
+	if done != nil {
+		done(url)
 	}
 	return r.bundle, r.err
 }
